@@ -479,6 +479,16 @@ def spec_builtin(eng, it, name, args, kwargs):
     if name == 'intdiv':
         a, b = it.to_int(args[0]), ar.as_long(it.to_int(args[1]))
         return VInt(a / b) if ar.mode == 'int' else it.binop(ast.FloorDiv(), args[0], args[1])
+    if name == 'same_list':
+        # quantifier-free equality of two heap lists: same length, same kind class, identical element arrays.
+        # (event arguments are snapshots that copy the element array wholesale, so this is what a call-out with
+        #  the list itself yields; it implies element-wise equality)
+        a, b = it.concretize(args[0], (VList, VSeq)), it.concretize(args[1], (VList, VSeq))
+        if isinstance(a, VList) and isinstance(b, VList) and repr(a.elem) == repr(b.elem):
+            return VBool(z3.And(list_len(st, a) == list_len(st, b),
+                                (list_kind(st, a) == KIND_LIST) == (list_kind(st, b) == KIND_LIST),
+                                list_inner(st, a) == list_inner(st, b)))
+        return VBool(it.seq_eq(a, b))
     if name == 'same_elems':
         return VBool(it.seq_eq(args[0], args[1]))
     if name == 'fresh_list':
